@@ -78,7 +78,9 @@ class Worker:
         if self.role == "host":
             env["PYTHONPATH"] = REPO
         env["VF_ROLE"] = self.role
-        if self.extra and self.extra != "zygote":
+        if self.extra == "optimize":
+            env["PYTHONOPTIMIZE"] = "1"         # the library under test running under `python -O` (asserts stripped)
+        elif self.extra and self.extra != "zygote":
             env["VF_WORKER_EXTRA"] = self.extra
         self.proc = subprocess.Popen(
             [exe, "-u", os.path.join(HERE, "refworker.py")],
